@@ -15,6 +15,7 @@ the checker does.
 Core Lean only; structurally recursive.
 -/
 import NitroVerif.Gql.Schema
+import NitroVerif.Spec.IntLit
 namespace NitroVerif.ValidTs
 open NitroVerif.Gql
 
@@ -302,9 +303,10 @@ def builtinScalar (n : Name) : Bool :=
 
 /-- input coercion of a *leaf* literal (not a list, not null, not a variable) for the named type `n`
     (§3.5.1–3.5.5 built-in scalars incl. Int → Float and Int → ID, §3.5 custom scalars, §3.9 enums);
-    input objects are handled in `valueOk` -/
+    input objects are handled in `valueOk`. §3.5.1: an `Int` input is an integer whose value lies in `[-2^31, 2^31)`
+    (`Spec/IntLit.lean`); `Float` and `ID` accept an integer literal of any size -/
 def scalarLeafOk (n : Name) (v : Value) : Bool :=
-  if n == "Int" then (match v with | .int .. => true | _ => false)
+  if n == "Int" then (match v with | .int s _ => SpecInt.intTextInRange s | _ => false)
   else if n == "Float" then (match v with | .int .. | .float .. => true | _ => false)
   else if n == "String" then (match v with | .str .. => true | _ => false)
   else if n == "Boolean" then (match v with | .bool .. => true | _ => false)
